@@ -4,6 +4,7 @@ mod gen_dict;
 mod gen_fault;
 mod gen_flow;
 mod gen_stream;
+mod gen_typed;
 mod gen_common;
 mod ir;
 mod model;
